@@ -1750,19 +1750,29 @@ def dip_value_same(mv, rv):
 
 def judge_dip_reader(ctx, c, m, sel, text, r):
     """Tie of the Lean model of the DIP node parser (Model/C19Dip.lean: readDip) to the real parser: on every
-    exported text whose nodes are boolean / numeric (scalars and arrays) or scalar strings without '$' that do not end
-    in a backslash (the fragment the reader models and C19_roundtrip_dip_partial is about) the model's reading of the text and the real re-parse must agree on
+    exported text whose nodes are boolean / numeric (scalars and arrays), scalar strings without '$' that do not end
+    in a backslash, or arrays of strings without '$' and control characters (the fragment the reader models and
+    C19_roundtrip_dip_partial / C19_roundtrip_dip_strings_partial are about) the model's reading of the text and the real re-parse must agree on
     name, kind, precision, value (hence shape) and unit of every parameter, in order.  impl != model here is a
     broken tie (disagreement), never a violation."""
     if not text or not sel or m.get("text") != text:
         return
-    # outside the reader model: arrays of strings, string texts with '$' (place-holders of DIP._determine_node) and
-    # texts ending in a backslash (known finding dip:string-trailing-backslash)
-    if any(p.kind == "str" and (isinstance(p.value, list) or "$" in p.value or p.value.endswith("\\")) for p in sel):
+    # outside the reader model: string texts with '$' (place-holders of DIP._determine_node), scalar string texts
+    # ending in a backslash (known finding dip:string-trailing-backslash), array elements with a control character
+    # (json.dumps writes a two-character escape for them; the reader model covers the \uXXXX escapes only)
+    def outside(p):
+        if p.kind != "str":
+            return False
+        if isinstance(p.value, list):
+            return any("$" in x or any(ord(ch) < 32 for ch in x) for x in p.flat())
+        return "$" in p.value or p.value.endswith("\\")
+    if any(outside(p) for p in sel):
         return
     ctx.count("dip-reader-model")
     if any(p.kind == "str" for p in sel):
         ctx.count("dip-reader-model.with-string")
+    if any(p.kind == "str" and isinstance(p.value, list) for p in sel):
+        ctx.count("dip-reader-model.with-string-array")
     mr = decode_cp(m.get("read"))
     ms = decode_cp(m.get("spec"))
     real = None if r is None else r[1]
